@@ -128,7 +128,7 @@ def judge(ctx, op, args, step, src):
             exp = []
             try:
                 for order in ("left", "right"):
-                    exp.append(ref_num.fold(op, args, order))
+                    exp.append(ref_num.fold(op, args, order, bounded=True))
             except Unjudgeable:
                 ctx.count("unjudgeable_conversion"); return None
         ctx.count("clause5_checked"); ctx.nontriv("c5:" + key)
